@@ -51,7 +51,7 @@ def REQUIRED(tier):
 def _required(tier):
     return ["ops:seek_set", "ops:seek_cur", "ops:cread", "ops:creadinto", "position_checks", "content_checks",
             "regime:read_spans_two_boundaries", "regime:seek_back_over_boundary", "regime:creadinto_hits_end",
-            "regime:cread_past_end_raises", "regime:position_exactly_at_boundary", "read_block:in_range", "read_block:rejected", "regime:member_file_with_trailing_partial_sample", "regime:file_listed_twice", "regime:relative_names_then_chdir", "giant_stream_ops", "regime:members_not_in_time_order", "ops:seek_by_one_header_length"]
+            "regime:cread_past_end_raises", "regime:absolute_seek_after_refused_cread", "regime:position_exactly_at_boundary", "read_block:in_range", "read_block:rejected", "regime:member_file_with_trailing_partial_sample", "regime:file_listed_twice", "regime:relative_names_then_chdir", "giant_stream_ops", "regime:members_not_in_time_order", "ops:seek_by_one_header_length"]
 
 
 def EXHAUSTIVE(tier):
@@ -178,7 +178,14 @@ def run_history(ctx, hdr_sinfo, nbits, model, bounds, ops, case_rec):
         return False
 
     try:
+        after_raise = False
         for step, (name, arg) in enumerate(ops):
+            if after_raise:
+                # a refused counted read leaves the position unspecified; an absolute in-range seek defines it again and the reader must go on working
+                if name != "ss" or arg >= T:
+                    break
+                after_raise = False
+                ctx.count("regime:absolute_seek_after_refused_cread")
             if name in ("ss", "sc"):
                 tgt = arg if name == "ss" else pos + arg
                 if tgt < 0 or tgt > T:
@@ -216,7 +223,8 @@ def run_history(ctx, hdr_sinfo, nbits, model, bounds, ops, case_rec):
                     if raised is None:
                         return viol("cread-past-end-no-raise", f"step {step}: cread of {nbytes} bytes at {pos} (stream {T}) returned {len(out)} values instead of raising")
                     ctx.count("regime:cread_past_end_raises")
-                    break  # state after a required raise is not judged
+                    after_raise = True   # state right after a required raise is not judged
+                    continue
                 if raised is not None:
                     return viol(f"inrange-cread-raised:{type(raised).__name__}@{exc_site(raised)}", f"step {step}: cread({arg}) at {pos} raised {fmt_exc(raised)}")
                 seg = model[pos : pos + nbytes]
@@ -478,7 +486,11 @@ def run_case(case, ctx):
                         n = int(rng.integers(0, room + 1)) if rng.random() < 0.9 else room + 1
                         ops.append(("cr", n))
                         if pos + n * isz > T:
-                            break
+                            if T < isz or len(ops) >= case["len"]:
+                                break
+                            pos = int(rng.integers(0, T // isz)) * isz   # the caller catches the error, repositions and carries on
+                            ops.append(("ss", pos))
+                            continue
                         pos += n * isz
                     else:
                         n = int(rng.integers(0, (T - pos) // isz + 3)) * isz
